@@ -4,6 +4,7 @@
    and reordering is not a theorem: it is the differential oracle of prop_C19.py; order sensitivity of schema
    parsing on cyclic graphs (F02a, F02c) belongs to the parser model of C02 and is only attributed here. *)
 From PG Require Import Lib.Strs Model.Sites Model.Diff Model.Render Proofs.Render.
+From PG Require Model.Parser.
 From Coq Require Import Permutation.
 
 (* FULL since the fix of F07b (parse_operations passes str(status_code) to parse_response): the same document with its
@@ -11,6 +12,11 @@ From Coq Require Import Permutation.
 Theorem C19_keys_full : forall d, parse_doc (retype_keys d) = parse_doc d.
 Proof. exact keys_full. Qed.
 Print Assumptions C19_keys_full.
+
+(* an int key prints back as the text it was read from: str(int(s)) = s for every canonical decimal string *)
+Theorem C19_int_key_roundtrip : forall s, is_canonical_dec s = true -> dec (dec_value s 0) = s.
+Proof. exact dec_roundtrip. Qed.
+Print Assumptions C19_int_key_roundtrip.
 
 Theorem C19_regression_F07b :
   all_str doc_F07b = true /\ all_str (retype_keys doc_F07b) = false /\
@@ -43,6 +49,23 @@ Theorem C19_prop_order_full : forall san props props',
 Proof. exact prop_order_full. Qed.
 Print Assumptions C19_prop_order_full.
 
+(* C19_schema_order, full statement (FALSE on cyclic documents: F02a, F02c - refuted on the parser model in
+   Properties/C02.v):  forall S S', Permutation S S' -> forall n, model fields of n agree.
+   PARTIAL: corollary of C02's fidelity theorem (parser model of C02, coq/Model/Parser.v) - on the core fragment, with
+   acyclic references within the depth limit (hypotheses of C02_partial, required of both orders), every declared
+   schema has a genuine model in both runs and the two models have the same fields. *)
+Theorem C19_schema_order_partial : forall md (S S' : Model.Parser.spec) rk rk',
+  Permutation S S' -> NoDup (map fst S) ->
+  Model.Parser.core_spec S = true -> Model.Parser.ranked_b rk S = true -> Model.Parser.depth_ok rk S md = true ->
+  Model.Parser.core_spec S' = true -> Model.Parser.ranked_b rk' S' = true -> Model.Parser.depth_ok rk' S' md = true ->
+  forall n, In n (map fst S) ->
+  exists e e', alookup n (Model.Parser.parsed (Model.Parser.parse_doc md S)) = Some e /\
+               alookup n (Model.Parser.parsed (Model.Parser.parse_doc md S')) = Some e' /\
+               Model.Parser.flags_of e = 0 /\ Model.Parser.flags_of e' = 0 /\
+               Model.Parser.fields_of e = Model.Parser.fields_of e'.
+Proof. exact schema_order_partial. Qed.
+Print Assumptions C19_schema_order_partial.
+
 Theorem C19_guard_nonvacuous :
   (guard_collide (fun s => s) (parse_doc doc_F07b) = true /\
    emitted_methods (fun s => s) (fun s => s) (parse_doc doc_F07b) = [(s_default_tag, s_op, [])]) /\
@@ -51,9 +74,8 @@ Theorem C19_guard_nonvacuous :
    gen_fields demo_san (rev demo_props) = gen_fields demo_san demo_props) /\
   (guard_acyclic graph_F02a = false /\ guard_no_allof_cycle graph_F02a = true /\
    guard_acyclic graph_F02c = false /\ guard_no_allof_cycle graph_F02c = false /\
-   guard_acyclic graph_dag = true /\ guard_no_allof_cycle graph_dag = true) /\
-  forallb (fun n => is_canonical_dec (dec n) && str_eqb (dec (dec_value (dec n) 0)) (dec n) && (dec_value (dec n) 0 =? n)) (upto 1000) = true.
+   guard_acyclic graph_dag = true /\ guard_no_allof_cycle graph_dag = true).
 Proof.
-  exact (conj guard_collide_nonvacuous (conj prop_order_nonvacuous (conj graph_guards_examples dec_roundtrip_0_999))).
+  exact (conj guard_collide_nonvacuous (conj prop_order_nonvacuous graph_guards_examples)).
 Qed.
 Print Assumptions C19_guard_nonvacuous.
